@@ -297,6 +297,10 @@ func (e *emitter) function() {
 		e.used[n] = true
 		binders = append(binders, fmt.Sprintf("(%s : %s)", n, e.g.typeOfVar(fi.decl, f)))
 	}
+	for _, oc := range fi.opaqueCalls {
+		e.used[oc.name] = true
+		binders = append(binders, fmt.Sprintf("(%s : %s)", oc.name, e.g.leanType(fi.decl, oc.typ)))
+	}
 	for _, p := range fi.params {
 		if droppedField(p.Type()) {
 			if e.paramUsed(p) {
